@@ -4,12 +4,17 @@ import json, os, sys
 V = os.path.dirname(os.path.dirname(os.path.abspath(__file__)))
 props = [json.loads(l) for l in open(os.path.join(V, 'properties.jsonl'))]
 TECH = "bounded symbolic execution of rustc MIR (mirsym) + SMT verdict per path obligation (z3), counterexamples replayed natively"
+TECH_C04 = TECH + "; SIMD i64 kernels: Kani/CBMC bounded model checking of the compiled code"
 NOTE = ("trusted: rustc nightly MIR printer, the mirsym executor and its closed list of library models (printed in evidence), z3, "
         "the native replay driver; a pass means no counterexample within evidence.coverage.bounds, nothing outside them")
 CLAIMS = {
+ 'C18': ("priority-queue order of the weighted search only: DijkstraEntry::cmp is a total order over every f64 bit pattern, cheapest first, ties by id, partial_cmp consistent; the searches themselves are not decided", "§4 C18"),
  'C20': ("codec round trips (varint, delta, id lists, RLE) and decoder totality on arbitrary bytes, for every value within the stated lengths", "§4 C20"),
  'C01': ("per-handler inductive Raft obligations (terms monotone, one vote per term to an up-to-date candidate, persisted before reply; AppendEntries acknowledges/commits only the vouched prefix and matches the leader's entries; leader commit rule; stale responses ignored; election quorum; pre-vote read-only) for every pre-state and message of the bounded shape; the composition into cluster-level safety is the textbook argument, not machine-checked", "§4 C01"),
  'C02': ("durable store, log framing only: every acknowledged log record is read back in order after a crash at any byte of the last record (immediate sync) or at any length above the synced length (manual sync), and after a further append + restart; slab contents/checkpoints are not decided", "§4 C02"),
+ 'C04': ("index key encodings vs the row-level predicate for every Int/Float/Bool/Null pair (hash-index and ordered-index lookups are complete), OrderedFloat total preorder, and the vectorised filters bit for bit against the scalar predicate (f64 kernels in the MIR executor, i64 kernels and bitmap ops under Kani); plan equivalence over engine state is not decided", "§4 C04"),
+ 'C06': ("stored-representation round trip only: to_dense(try_from_dense(v)) for every f32 bit pattern up to the stated dimension, representation invariants; scores/top-k/HNSW/cache not decided", "§4 C06"),
+ 'C07': ("snapshot header codec only: raw round trip, validate accepts exactly the v3 magic + current version, every single-bit flip in magic/version rejected; slab contents and rename atomicity not decided", "§4 C07"),
  'C10': ("RaftWal: crash at every byte of the last record, reopen, append, restart: no acknowledged term/vote/log record is lost; recovery classification returns the last persisted term and vote", "§4 C10"),
  'C13': ("TxWal: same crash obligations as C10; TxRecoveryState::from_entries never resurrects a completed transaction, returns prepared ones with their votes, forgets preparing ones and lists orphaned lock handles exactly", "§4 C13"),
  'C15': ("both real Pratt loops (ExprParser and Parser) executed on symbolic token streams: for every pair of infix operators a OP1 b OP2 c groups per the documented precedence levels and left associativity, prefix operators bind tighter than every infix operator, token->operator map is injective; lexer/totality/depth/text-vs-engine equivalence not decided", "§4 C15"),
@@ -29,7 +34,7 @@ for pid, (text, ref) in sorted(CLAIMS.items()):
     checks.append({
         "property_id": pid, "quick_cmd": f"./check {pid} quick", "thorough_cmd": f"./check {pid} thorough",
         "evidence_file": f"/verif/evidence/{pid}.json", "replay_cmd_template": "cat {path}",
-        "engine": "mirsym", "technique": TECH,
+        "engine": "mirsym" if pid != "C04" else "mirsym+kani", "technique": TECH if pid != "C04" else TECH_C04,
         "level_claimed": {"category": "other", "text": "bounded solver verdict over the real code: " + text, "design_ref": "DESIGN.md " + ref},
         "level_note": NOTE})
 na = []
@@ -39,10 +44,11 @@ for p in props:
     na.append({"property_id": p['id'], "reason": NA.get(p['id'], "check not built yet in this session (planned, see DESIGN.md §4)")})
 man = {
  "version": 1, "setup_cmd": "./setup.sh",
- "hooks": {"guard": "neumann_verif", "enable": "cargo feature neumann_verif on tensor_chain (read-only accessors used only by the native replay driver /verif/replay; the MIR dump needs no hooks)",
-           "baseline_off_cmd": "cd /repo && cargo nextest run --workspace --no-fail-fast --offline", "source_commits": ["80aaab17"], "add_only": True},
+ "hooks": {"guard": "neumann_verif", "enable": "cargo feature neumann_verif on tensor_chain, relational_engine, graph_engine (read-only accessors / wrappers used by the native replay driver /verif/replay and the Kani crate /verif/kani; the MIR dump needs no hooks)",
+           "baseline_off_cmd": "cd /repo && cargo nextest run --workspace --no-fail-fast --offline", "source_commits": ["80aaab17", "4d5c4419", "8f6898ea"], "add_only": True},
  "engines": [{"name": "mirsym", "path": "/verif/mirsym", "serves_properties": sorted(CLAIMS),
-              "kind_free_text": "symbolic execution of the MIR rustc prints for the current tree; z3 decides every path obligation; native replay driver (/verif/replay) for translator validation and counterexample confirmation"}],
+              "kind_free_text": "symbolic execution of the MIR rustc prints for the current tree; z3 decides every path obligation; native replay driver (/verif/replay) for translator validation and counterexample confirmation"},
+             {"name": "kani", "path": "/verif/kani", "serves_properties": ["C04"], "kind_free_text": "Kani 0.68 / CBMC harnesses over the compiled relational_engine SIMD kernels (feature neumann_verif), unwinding assertions and cover checks on"}],
  "checks": checks, "not_applicable": na,
  "notes": "exit 0 held within bounds; 1 replayed violation; 2 inconclusive (unsupported construct, bound exhausted, solver unknown, replay mismatch)"}
 json.dump(man, open(os.path.join(V, 'MANIFEST.json'), 'w'), indent=1)
